@@ -513,6 +513,28 @@ class PassUnit:
             raise TranslatorError('Circuit.dfs must forward its arguments to _traverse_circuit(TraverseMode.DFS, ...)')
         self.core.trivial_getter('GateType', 'is_symmetric', '_is_symmetric')
 
+    @staticmethod
+    def guard_class(cls, name):
+        """the class body binds `name` exactly once, by a plain def; the class is not decorated / has no metaclass"""
+        if cls.decorator_list or cls.keywords:
+            fail(cls, f'class {cls.name} is decorated / has class keywords')
+        k = 0
+        for n in cls.body:
+            if isinstance(n, (ast.FunctionDef, ast.AsyncFunctionDef, ast.ClassDef)) and n.name == name:
+                k += 1
+            elif isinstance(n, (ast.Assign, ast.AnnAssign, ast.AugAssign, ast.Delete)):
+                tg = n.targets if isinstance(n, (ast.Assign, ast.Delete)) else [n.target]
+                if any(isinstance(x, ast.Name) and x.id == name for t in tg for x in ast.walk(t)):
+                    fail(n, f'{cls.name}.{name} is rebound in the class body')
+            elif not isinstance(n, (ast.FunctionDef, ast.Expr, ast.Pass)):
+                for x in ast.walk(n):
+                    if isinstance(x, ast.Name) and x.id == name and isinstance(x.ctx, (ast.Store, ast.Del)):
+                        fail(n, f'{cls.name}.{name} is rebound in the class body')
+                    if isinstance(x, (ast.FunctionDef, ast.ClassDef)) and x.name == name:
+                        fail(n, f'{cls.name}.{name} is defined conditionally')
+        if k != 1:
+            fail(cls, f'{cls.name}.{name} is not defined exactly once')
+
     def get(self, dotted, qual, node=None):
         key = (dotted, qual)
         if key in self.done:
@@ -528,9 +550,8 @@ class PassUnit:
             cls = m.classes.get(cname)
             if cls is None or m.bind.get(cname) != ('def', cls):
                 raise TranslatorError(f'{dotted}: class {cname} not found')
+            self.guard_class(cls, fname)
             srcs = [n for n in cls.body if isinstance(n, ast.FunctionDef) and n.name == fname]
-            if len(srcs) != 1:
-                raise TranslatorError(f'{dotted}.{qual}: not defined exactly once')
             tr = FnTr(self, m, srcs[0], f'gen_{cname}_{fname.lstrip("_")}', 'method', cls=cls)
         else:
             src = m.funcs.get(qual)
@@ -1761,9 +1782,13 @@ def _dc_method(self, m, cname, attr, node):
         return self.done[key]
     if m.dataclass(cname) is None:
         fail(node, f'{cname} is not a translated dataclass')
-    srcs = [n for n in m.classes[cname].body if isinstance(n, ast.FunctionDef) and n.name == attr]
-    if len(srcs) != 1:
+    c = m.classes[cname]
+    k = sum(1 for n in c.body if isinstance(n, ast.FunctionDef) and n.name == attr)
+    rebinds = [x for n in c.body if not isinstance(n, ast.FunctionDef) for x in ast.walk(n)
+               if isinstance(x, ast.Name) and x.id == attr and isinstance(x.ctx, (ast.Store, ast.Del))]
+    if k != 1 or rebinds:
         fail(node, f'{cname}.{attr}: not defined exactly once')
+    srcs = [n for n in c.body if isinstance(n, ast.FunctionDef) and n.name == attr]
     fn = FnTr(self, m, srcs[0], f'gen_{cname.lstrip("_")}_{attr.lstrip("_")}', 'dcmethod', dc=cname).translate()
     self.order.append(fn.text)
     self.done[key] = fn
@@ -2022,6 +2047,13 @@ class PipeUnit(PassUnit):
             cls = m.classes.get(cname)
             if cls is None or m.bind.get(cname) != ('def', cls):
                 raise TranslatorError(f'{dotted}: class {cname} not found')
+            if cls.decorator_list:
+                fail(cls, 'decorated class')
+            for n in cls.body:
+                if not isinstance(n, ast.FunctionDef):
+                    for x in ast.walk(n):
+                        if isinstance(x, ast.Name) and x.id == fname and isinstance(x.ctx, (ast.Store, ast.Del)):
+                            fail(n, f'{cname}.{fname} is rebound in the class body')
             src = self.method(cls, fname)
             if src is None or [ast.unparse(d) for d in src.decorator_list] != ['staticmethod']:
                 raise TranslatorError(f'{dotted}.{qual}: not a staticmethod defined once')
